@@ -21,12 +21,81 @@ MAX_BLOCKS = 400
 PINNED = os.path.join(os.path.dirname(os.path.dirname(os.path.abspath(__file__))), "pinned_fns.json")
 
 
-def load_pinned():
+def load_pinned(config="default"):
+    """{function name: signature} of the reviewed tree for one feature configuration"""
     try:
         with open(PINNED) as f:
-            return set(json.load(f)["functions"])
+            return json.load(f)["configs"][config]
     except (OSError, ValueError, KeyError):
         return None
+
+
+def signature(jb):
+    """what must coincide for a function to be considered `the same function under a new name`"""
+    n = jb["arg_count"]
+    return [jb.get("kind"), jb.get("self_adt"), jb.get("trait"), [l["ty"] for l in jb["locals"][1:1 + n]], jb["locals"][0]["ty"]]
+
+
+def _module(name):
+    return name.rsplit("::", 1)[0]
+
+
+def _rename_everywhere(j, old, new):
+    bodies = j["bodies"]
+    ren = {}
+    for n in list(bodies):
+        if n == old or n.startswith(old + "::{"):
+            ren[n] = new + n[len(old):]
+    for a, b in ren.items():
+        bodies[b] = bodies.pop(a)
+        bodies[b]["renamed_from"] = a
+
+    def fix(x):
+        if isinstance(x, dict):
+            for k, v in list(x.items()):
+                if isinstance(v, str) and k in ("fn", "res", "closure", "parent") and v in ren:
+                    x[k] = ren[v]
+                elif isinstance(v, str) and k == "fna" and v == old:
+                    x[k] = new
+                else:
+                    fix(v)
+        elif isinstance(x, list):
+            for v in x:
+                fix(v)
+    for jb in bodies.values():
+        if jb.get("parent") in ren:
+            jb["parent"] = ren[jb["parent"]]
+        fix(jb["blocks"])
+    if isinstance(j.get("fns"), dict) and old in j["fns"]:
+        j["fns"][new] = j["fns"].pop(old)
+    for im in j.get("impls", []):
+        if old in im.get("items", []):
+            im["items"] = [new if i == old else i for i in im["items"]]
+
+
+def alias_renamed(j, pinned):
+    """A reviewed function that has disappeared while exactly one new function with the same signature appeared in the same
+    module / impl is that function under a new name: analyse it under the reviewed name (rules are anchored in names).
+    Returns {reviewed name: current name}."""
+    bodies = j["bodies"]
+    missing = [m for m in pinned if m not in bodies]
+    new = [n for n, jb in bodies.items() if jb.get("kind") in ("fn", "method") and n not in pinned]
+    out = {}
+    if not missing or not new:
+        return out
+    claims = {}
+    for m in missing:
+        cands = [n for n in new if _module(n) == _module(m) and signature(bodies[n]) == pinned[m]]
+        if len(cands) == 1:
+            claims.setdefault(cands[0], []).append(m)
+    for n, ms in claims.items():
+        if len(ms) == 1:
+            out[ms[0]] = n
+    for m, n in out.items():
+        _rename_everywhere(j, n, m)
+    if out:
+        j["renamed_functions"] = out
+    return out
 
 
 def _is_place(d):
@@ -141,12 +210,13 @@ def _splice(caller, bi, callee, callee_name):
     caller.setdefault("inlined", []).append(callee_name)
 
 
-def inline_new_helpers(j, pinned=None):
+def inline_new_helpers(j, pinned=None, config="default"):
     """j: loaded fact base (dict).  Returns a report {helper: [callers...]} ; mutates j['bodies']"""
     if pinned is None:
-        pinned = load_pinned()
+        pinned = load_pinned(config)
     if pinned is None:
         return {}
+    alias_renamed(j, pinned)
     bodies = j["bodies"]
     cand = {n for n, jb in bodies.items() if inlineable(n, jb, pinned)}
     if not cand:
